@@ -107,7 +107,7 @@ pub fn run_check(ctx: &Ctx) -> Report {
         "exploration",
         "programs of the `calls` profile (up to ~6 functions, 0-4 parameters, locals, direct recursion, functions stored / passed / returned, calls from every expression context, \
          arguments wrapped in a tracing identity so that evaluation order is visible) against the reference interpreter; directed programs: mutual recursion through pre-declared variables, \
-         functions in arrays, 255 arguments, calls made from up to 280 000 bytes into straight-line code (the call returns to where it was made), recursion to depth 10 ... 70 000 with and without locals (expected value known arithmetically; beyond the machine's limits an error is accepted, U17). \
+         functions in arrays, 255 arguments, calls made from up to 280 000 bytes into straight-line code (the call returns to where it was made), recursion to depth 10 ... 70 000 with and without locals, and recursions to the 16-bit stack limit that end in a call of a leaf function with 0-2 parameters and 0-2 locals at every stack index around 65 536 (expected value known arithmetically; beyond the machine's limits an error is accepted, U17). \
          non-trivial = two activations of the same function live at once, or a call made with >=1 pending operand; distinct by source text",
     );
     rep.assumptions.push("U3: calls pass exactly as many arguments as the function has parameters; U15: callees are identifiers or function literals".into());
@@ -160,6 +160,51 @@ pub fn run_check(ctx: &Ctx) -> Report {
         for depth in (lo - 8).max(1)..=(lo + 8) {
             let (s, e) = src_of(depth);
             check_directed_value(&mut rep, &s, e, 30_000_000);
+        }
+    }
+    // the same limit reached by a call of *another* function than the recursing one: a leaf with p parameters and l locals
+    // (none at all included) is called from the bottom of a recursion with two slots per level, under j further pending operands,
+    // so that the leaf's frame starts at every slot around 65 536, of either parity (added after the eighth wave's C12-11, DESIGN.md 7.2)
+    for (p, l) in [(0usize, 0usize), (1, 0), (0, 1), (2, 2)] {
+        for j in 0..2usize {
+            let src_of = |k: i64| -> (String, i64) {
+                let params: Vec<String> = (0..p).map(|i| format!("p{i}")).collect();
+                let locals: String = (0..l).map(|i| format!("stel a{i} = 1; ")).collect();
+                let mut sum: Vec<String> = vec!["7".into()];
+                sum.extend(params.iter().cloned());
+                sum.extend((0..l).map(|i| format!("a{i}")));
+                let args = vec!["1"; p].join(", ");
+                let call = format!("{}f({k}){}", "0 + (".repeat(j), ")".repeat(j));
+                (
+                    format!(
+                        "functie z({}) {{ {}{} }} functie f(n) {{ als n == 0 {{ antwoord z({}) }} stel r = f(n - 1); r + n }} {}",
+                        params.join(", "),
+                        locals,
+                        sum.join(" + "),
+                        args,
+                        call
+                    ),
+                    7 + (p + l) as i64 + k * (k + 1) / 2,
+                )
+            };
+            let (mut lo, mut hi) = (30_000i64, 34_000i64);
+            while lo < hi {
+                let mid = (lo + hi + 1) / 2;
+                let (s, e) = src_of(mid);
+                check_directed_value(&mut rep, &s, e, 30_000_000);
+                let ok = matches!(run_eval(&s, &RunCfg { budget: 30_000_000, audit_heap: false }).outcome, Outcome::Value(_));
+                if ok {
+                    lo = mid;
+                } else {
+                    hi = mid - 1;
+                }
+            }
+            rep.count_n("limit-sweep-leaf:deepest-successful-recursion", lo as u64);
+            for depth in (lo - 4).max(1)..=(lo + 4) {
+                let (s, e) = src_of(depth);
+                check_directed_value(&mut rep, &s, e, 30_000_000);
+                rep.count("limit-sweep-leaf:case");
+            }
         }
     }
     // argument counts around the 8-bit operand of the call instruction: the exact value, or a (syntax) error - never another value
